@@ -6,22 +6,30 @@ From ApiFu Require Import Base.Sexp Fut.Plan Fut.Future Fut.ExecAsync Fut.ExecSy
 Import ListNotations.
 
 (** ** monotonicity of outcomes *)
-Lemma Blocked_chans s s' g :
-  (forall x, In x (s_chans s') -> In x (s_chans s)) -> Blocked s g -> Blocked s' g.
-Proof. intros C (id & A & B). exists id. split; auto. intros ok H. apply (B ok). now apply C. Qed.
+Lemma Blocked_chans s s' g : chans_later s s' -> Blocked s g -> Blocked s' g.
+Proof.
+  intros [Np C] (id & A & Lt & B). exists id. split; auto. split; [lia|].
+  intros ok H. destruct (C _ H) as [H1|H1]; [exact (B ok H1) | simpl in H1; lia].
+Qed.
 
-Lemma Outcome_mono (L : ghe -> st -> clo -> ghost -> Prop) sp G s G' s' g f :
+Lemma OutcomeB_mono (Bk : st -> ghost -> Prop) (L : ghe -> st -> clo -> ghost -> Prop) sp G s G' s' g f :
   (forall c g, L G s c g -> L G' s' c g) ->
-  gle G G' -> sle s s' -> (forall x, In x (s_chans s') -> In x (s_chans s)) ->
-  Outcome L sp G s g f -> Outcome L sp G' s' g f.
+  gle G G' -> sle s s' -> (Bk s g -> Bk s' g) ->
+  OutcomeB Bk L sp G s g f -> OutcomeB Bk L sp G' s' g f.
 Proof.
   intros M Hg Hs Hc. destruct f as [r|c]; simpl.
   - intros [R E]. split; auto. eapply ResOK_mono; eauto.
-  - intros [A B]. split; auto. eapply Blocked_chans; eauto.
+  - intros [A B]. split; auto.
 Qed.
 
-Lemma Step_chans G s g G' s' g' : Step G s g G' s' g' -> forall x, In x (s_chans s') -> In x (s_chans s).
-Proof. intros (_ & _ & _ & A). apply (ac_chans _ _ _ _ A). Qed.
+Lemma Outcome0_mono (L : ghe -> st -> clo -> ghost -> Prop) sp G s G' s' g f :
+  (forall c g, L G s c g -> L G' s' c g) ->
+  gle G G' -> sle s s' ->
+  Outcome0 L sp G s g f -> Outcome0 L sp G' s' g f.
+Proof. intros M Hg Hs. apply OutcomeB_mono; auto. Qed.
+
+Lemma Step_chans G s g G' s' g' : Step G s g G' s' g' -> chans_later s s'.
+Proof. intros (_ & _ & _ & A). eapply Acct_chans_later; eauto. Qed.
 
 (** ** declarative equations for lists *)
 Fixpoint sum_async (l : list vplan) : nat :=
@@ -43,7 +51,7 @@ Lemma cand_items_cons_fst inn p x tl i :
 Proof. reflexivity. Qed.
 
 Definition OutcomeCI G s inn x q g f :=
-  Outcome (fun G s => LiveCI G s inn x q) (spec_CI inn x q) G s g f.
+  Outcome0 (fun G s => LiveCI G s inn x q) (spec_CI inn x q) G s g f.
 
 Inductive BuiltItems (G : ghe) (s : st) (inn : bool) (p : rpath) : list vplan -> nat -> list fut -> ghost -> Prop :=
 | BI_nil i : BuiltItems G s inn p [] i [] g0
@@ -53,11 +61,11 @@ Inductive BuiltItems (G : ghe) (s : st) (inn : bool) (p : rpath) : list vplan ->
     BuiltItems G s inn p (x :: tl) i (f :: fs) (gplus g1 g).
 
 Lemma BuiltItems_mono G s G' s' inn p l i fs g :
-  gle G G' -> sle s s' -> (forall x, In x (s_chans s') -> In x (s_chans s)) ->
+  gle G G' -> sle s s' ->
   BuiltItems G s inn p l i fs g -> BuiltItems G' s' inn p l i fs g.
 Proof.
-  intros Hg Hs Hc B. induction B; constructor; auto.
-  unfold OutcomeCI in *. eapply Outcome_mono; [ | exact Hg | exact Hs | exact Hc | exact H].
+  intros Hg Hs B. induction B; constructor; auto.
+  unfold OutcomeCI in *. eapply Outcome0_mono; [ | exact Hg | exact Hs | exact H].
   intros c g2. now apply LiveCI_mono.
 Qed.
 
@@ -93,7 +101,7 @@ Proof.
       eapply Acct_par; eauto.
     + constructor; auto.
       destruct St2 as (B1 & B2' & B3 & B4).
-      eapply Outcome_mono; [| exact B1 | exact B2' | apply (ac_chans _ _ _ _ B4) | exact O1].
+      eapply Outcome0_mono; [| exact B1 | exact B2' | exact O1].
       intros c g. now apply LiveCI_mono.
 Qed.
 
@@ -178,7 +186,7 @@ Lemma join_init_spec G s inn p l :
                 In e (fst (cand_items cand_inner inn p l i))
     | LAllOk => ok = true /\ g = g0 /\ LiveItems G s inn p l i fs res' g0 /\ Forall is_ready fs
     | LNotYet => LiveItems G s inn p l i fs res' g /\
-                 (ok = false \/ (Exists is_pending fs /\ Blocked s g))
+                 (ok = false \/ Exists is_pending fs)
     end.
 Proof.
   induction l as [|x tl IH]; intros i fs g res ok res' o B Ln E;
@@ -208,7 +216,7 @@ Proof.
         -- constructor; [exact Logic.I | exact R].
       * destruct M as (LI & D). split.
         -- econstructor; eauto.
-        -- destruct D as [D|[D1 D2]]; [now left | right]. split; auto.
+        -- destruct D as [D|D1]; [now left | right]. now apply Exists_cons_tl.
     + (* ready, error *)
       injection E as <- <-. simpl in O. destruct O as [[F In] ->]. split; auto. split; auto.
       simpl in F. apply andb_true_iff in F. destruct F as [-> F]. split; auto. split.
@@ -224,17 +232,16 @@ Proof.
         -- rewrite cand_items_cons_fst. apply in_or_app. now right.
       * destruct M as (D & _). discriminate.
       * destruct M as (LI & _). split; [econstructor; eauto|].
-        destruct ok; [right | now left]. split; [constructor; exact Logic.I|].
-        destruct Bc as (id & A1 & A2). exists id. split; auto. simpl. apply in_or_app. now left.
+        destruct ok; [right | now left]. constructor; exact Logic.I.
 Qed.
 
 Lemma BuiltItems_length G s inn p l i fs g : BuiltItems G s inn p l i fs g -> length fs = length l.
 Proof. induction 1; simpl; auto. Qed.
 
 Lemma Blocked_plus_l s a b : Blocked s a -> Blocked s (gplus a b).
-Proof. intros (id & A & B). exists id. split; auto. simpl. apply in_or_app. now left. Qed.
+Proof. intros (id & A & B). exists id. split; [|exact B]. simpl. apply in_or_app. now left. Qed.
 Lemma Blocked_plus_r s a b : Blocked s b -> Blocked s (gplus a b).
-Proof. intros (id & A & B). exists id. split; auto. simpl. apply in_or_app. now right. Qed.
+Proof. intros (id & A & B). exists id. split; [|exact B]. simpl. apply in_or_app. now right. Qed.
 
 (** ** the list branch of completeValue at construction *)
 Lemma list_build inn items p :
@@ -266,7 +273,7 @@ Proof.
   - destruct M as (_ & -> & LI & R). exists G', g0. split; auto. split; auto.
     destruct (items_done_val _ _ _ _ _ _ _ LI R) as (X1 & X2 & X3). split; auto.
   - destruct M as (LI & D). exists G', g'. split; auto.
-    destruct D as [D|[D1 D2]]; [discriminate|]. split; auto. constructor; auto.
+    destruct D as [D|D1]; [discriminate|]. split; [constructor; auto | trivial].
 Qed.
 
 (** ** Join's poll function *)
